@@ -23,7 +23,7 @@ class Behaviour:
             "horizon": 8 * 1024, "budget": 60, "maxReq": 3, "pTelemetry": 0.15, "maxHops": 3,
             "offsets": [0, 0, 1, 512, 1024, 1024, 2048, 3072, -512],
             "w": {"setTimer": 5, "cancelTimer": 2, "send": 3, "broadcast": 2, "goto": 1,
-                  "setSpeed": 0.5, "setRange": 0.5, "gotoGeo": 0.2},
+                  "setSpeed": 0.5, "setRange": 0.5, "gotoGeo": 0},
             "pBadDst": 0.12, "pGuarded": 0.15, "pFinish": 0.5, "names": NAMES,
             "speeds": [10.0, 4.0, 0.5, 64.0], "ranges": [60.0, 5.0, 0.0, 25.0, -1.0],
         }
